@@ -27,7 +27,7 @@ def gen_ahb(rnd, pick_expr, n_roots=(1, 3), depth=2, fanout=(0, 2), n_segments=(
         if free_inputs is not None:
             value = free_inputs(rnd, disc)
         else:
-            value = rnd.choice([None, "", f"txt-{disc}", f"txt-{disc}", f"in {disc}"])
+            value = rnd.choice([None, "", f"txt-{disc}", f"txt-{disc}", f"in {disc}", "0"])
         return {"t": "f", "d": disc, "e": pick_free_expr(), "input": value}
 
     def gen_pool():
@@ -72,11 +72,13 @@ def build_node(node):
 
     kind = node["t"]
     if kind == "g":
+        # maus allows both None and [] for "nothing here"; which one is used is decided by the node itself
+        use_none = sum(map(ord, node["d"])) % 2 == 0
         return SegmentGroup(
             discriminator=node["d"],
             ahb_expression=node["e"],
-            segments=[build_node(s) for s in node.get("segments", [])],
-            segment_groups=[build_node(g) for g in node.get("groups", [])],
+            segments=[build_node(s) for s in node.get("segments", [])] or (None if use_none else []),
+            segment_groups=[build_node(g) for g in node.get("groups", [])] or (None if use_none else []),
         )
     if kind == "s":
         return Segment(
